@@ -51,7 +51,14 @@ def item_of(it, p, v):
         if v.name == "Instruction":
             idv = deref_all(it, p, v.fields[0]) if v.fields else None
             nm = idv.tag[3:].split(".")[0] if isinstance(idv, Opaque) and idv.tag.startswith("op:") else ("#%s" % idv.v if isinstance(idv, Int) else "?")
-            return ("ins", nm)
+            argc = None
+            if len(v.fields) > 1:
+                a = deref_all(it, p, v.fields[1])
+                if isinstance(a, Seq):
+                    argc = len(a.items)
+                elif isinstance(a, Tup):
+                    argc = len(a.fields)
+            return ("ins", nm, argc)
         return ("item", v.name)
     return ("?", tag_of(it, p, v))
 
@@ -140,7 +147,12 @@ def _unwrap_or_else(it, p, fid, fn, t, args):
     return NotImplemented
 
 
+def _same(it, p, fid, fn, t, args):
+    return args[0]
+
+
 MODELS = {
+    "alloc::vec::Vec::into_boxed_slice": _same,
     "core::option::Option::unwrap_or_else": _unwrap_or_else,
     "compiler::ast::Compile::compile": _compile_model,
     "compiler::ast::math_expr::compile_depth": _compile_model,
